@@ -258,8 +258,8 @@ Hypothesis L : elevel pc cur.
 Let Hrel : lvl_rel pc cur := el_rel pc cur L.
 
 (** one value of a pending option: the count moves on, [ValueDone] when the range's maximum is reached *)
-Lemma eng_value_step v a r pi j : no_sub pc v -> plain_tok v -> a_num a = Some r ->
-  shadow_step v cur pi false (Opt a j) = SNext cur pi false (if j <? vmax r then Opt a (j + 1) else ValueDone).
+Lemma eng_value_step v a r pi j evaf : no_sub pc v -> plain_tok v -> a_num a = Some r ->
+  shadow_step v cur pi false (Opt a j) evaf = SNext cur pi false (if j <? vmax r then Opt a (j + 1) else ValueDone) evaf.
 Proof.
   intros Hns [He [Hl Hs]] Hn. unfold shadow_step. cbn [negb]. rewrite (eng_no_sub pc cur v _ Hrel Hns).
   rewrite lex_is_escape, He, lex_to_long, Hl, lex_to_short, Hs.
@@ -267,42 +267,43 @@ Proof.
   destruct (opt_allows_hyphen (Opt a j) v); reflexivity.
 Qed.
 
-Lemma eng_values_full a r pi : a_num a = Some r -> forall vs j, vs <> [] -> Forall (value_tok pc a) vs ->
+Lemma eng_values_full a r pi evaf : a_num a = Some r -> forall vs j, vs <> [] -> Forall (value_tok pc a) vs ->
   j + N.of_nat (length vs) = vmax r + 1 ->
-  shadow_run vs cur pi false (Opt a j) = SNext cur pi false ValueDone.
+  shadow_run vs cur pi false (Opt a j) evaf = SNext cur pi false ValueDone evaf.
 Proof.
   intros Hn. induction vs as [|v t IH]; intros j Hne Hall Hlen; [contradiction|].
   inversion Hall as [|v0 t0 [Hns [Hpl _]] Hall']; subst. cbn [shadow_run].
-  rewrite (eng_value_step v a r pi j Hns Hpl Hn).
+  rewrite (eng_value_step v a r pi j evaf Hns Hpl Hn).
   destruct t as [|v' t'].
   - cbn [length] in Hlen. replace (j <? vmax r) with false by (symmetry; apply N.ltb_ge; lia). reflexivity.
   - replace (j <? vmax r) with true by (symmetry; apply N.ltb_lt; cbn [length] in Hlen; lia).
     apply IH; [discriminate|exact Hall'|cbn [length] in *; lia].
 Qed.
 
-Lemma eng_values_open a r pi : a_num a = Some r -> forall vs j, Forall (value_tok pc a) vs ->
+Lemma eng_values_open a r pi evaf : a_num a = Some r -> forall vs j, Forall (value_tok pc a) vs ->
   j + N.of_nat (length vs) <= vmax r ->
-  shadow_run vs cur pi false (Opt a j) = SNext cur pi false (Opt a (j + N.of_nat (length vs))).
+  shadow_run vs cur pi false (Opt a j) evaf = SNext cur pi false (Opt a (j + N.of_nat (length vs))) evaf.
 Proof.
   intros Hn. induction vs as [|v t IH]; intros j Hall Hlen.
   - cbn [shadow_run length N.of_nat]. rewrite N.add_0_r. reflexivity.
   - inversion Hall as [|v0 t0 [Hns [Hpl _]] Hall']; subst. cbn [shadow_run].
-    rewrite (eng_value_step v a r pi j Hns Hpl Hn).
+    rewrite (eng_value_step v a r pi j evaf Hns Hpl Hn).
     replace (j <? vmax r) with true by (symmetry; apply N.ltb_lt; cbn [length] in Hlen; lia).
     rewrite IH; [|exact Hall'|cbn [length] in *; lia].
     replace (j + 1 + N.of_nat (length t)) with (j + N.of_nat (length (v :: t))) by (cbn [length]; lia). reflexivity.
 Qed.
 
-Lemma eng_item18 toks F pi : item18 pc toks F -> shadow_run toks cur pi false ValueDone = SNext cur pi false ValueDone.
+Lemma eng_item18 toks F pi evaf : item18 pc toks F ->
+  shadow_run toks cur pi false ValueDone evaf = SNext cur pi false ValueDone true.
 Proof.
   intros Hi. destruct Hi.
-  - apply (eng_item pc cur L toks F pi). assumption.
-  - (* -o=v *) cbn [shadow_run]. rewrite (eng_short_opt pc cur L tok r ch (61 :: v) a pi) by assumption. reflexivity.
-  - (* --opt v1 .. vk *) cbn [shadow_run]. rewrite (eng_long pc cur L tok f None a pi) by assumption.
+  - apply (eng_item pc cur L toks F pi evaf). assumption.
+  - (* -o=v *) cbn [shadow_run]. rewrite (eng_short_opt pc cur L tok r ch (61 :: v) a pi evaf) by assumption. reflexivity.
+  - (* --opt v1 .. vk *) cbn [shadow_run]. rewrite (eng_long pc cur L tok f None a pi evaf) by assumption.
     match goal with H : a_takes_value a = true |- _ => rewrite H end. cbn [is_none andb].
-    apply (eng_values_full a r pi); try assumption. lia.
-  - (* -o v1 .. vk *) cbn [shadow_run]. rewrite (eng_short_opt pc cur L tok r0 ch [] a pi) by assumption. cbn [is_nil].
-    apply (eng_values_full a r pi); try assumption. lia.
+    apply (eng_values_full a r pi true); try assumption. lia.
+  - (* -o v1 .. vk *) cbn [shadow_run]. rewrite (eng_short_opt pc cur L tok r0 ch [] a pi evaf) by assumption. cbn [is_nil].
+    apply (eng_values_full a r pi true); try assumption. lia.
 Qed.
 End EngineItems18.
 
@@ -312,14 +313,14 @@ Theorem values_agree pc cur tok f a r vs : elevel pc cur ->
   no_sub pc tok -> to_long tok = Some (f, true, None) -> get_long pc f = Some a -> a_takes_value a = true ->
   a_req_eq a = false -> find_arg pc (a_id a) = Some a -> a_num a = Some r ->
   N.of_nat (length vs) < vmax r -> Forall (value_tok pc a) vs ->
-  (forall pi, shadow_run (tok :: vs) cur pi false ValueDone = SNext cur pi false (Opt a (1 + N.of_nat (length vs)))) /\
+  (forall pi evaf, shadow_run (tok :: vs) cur pi false ValueDone evaf = SNext cur pi false (Opt a (1 + N.of_nat (length vs))) true) /\
   (forall rest pos vaf st,
      parse_loop pc (tok :: vs ++ rest) (lsV pos vaf) st =
      (do st' <- sepm_fn pc ILong a vs st; parse_loop pc rest (mkL (PSOpt (a_id a)) pos true false) st')).
 Proof.
   intros L Hns Hl Hg Htv Hre Hf Hn Hlen Hall. split.
-  - intros pi. cbn [shadow_run]. rewrite (eng_long pc cur L tok f None a pi Hns Hl Hg), Htv. cbn [is_none andb].
-    apply (eng_values_open pc cur L a r pi Hn vs 1 Hall). lia.
+  - intros pi evaf. cbn [shadow_run]. rewrite (eng_long pc cur L tok f None a pi evaf Hns Hl Hg), Htv. cbn [is_none andb].
+    apply (eng_values_open pc cur L a r pi true Hn vs 1 Hall). lia.
   - intros rest pos vaf st.
     rewrite (loop_long_open pc tok f a (vs ++ rest) pos vaf st Hns Hl Hg Htv Hre).
     unfold sepm_fn. destruct (resolve_pending pc st) as [st1|e s1|x]; cbn [rbind]; try reflexivity.
@@ -328,28 +329,31 @@ Proof.
     cbn [p_raw]. rewrite with_raw_open. reflexivity.
 Qed.
 
-(** * [pitems18]: options ([item18]) and single-valued positionals; the indices are the positional counter *)
-Inductive pitems18 (c : cmd) : N -> list bytes -> (ps -> res ps) -> N -> Prop :=
-| p18_nil pos : pitems18 c pos [] (fun st => ROk st) pos
-| p18_opt pos toks F pre G pos' : item18 c toks F -> pitems18 c pos pre G pos' ->
-    pitems18 c pos (toks ++ pre) (fun st => do st' <- F st; G st') pos'
-| p18_pos pos tok a pre G pos' :
-    no_sub c tok -> plain_tok tok -> takes_at c pos a tok -> a_is_multiple a = false ->
-    pitems18 c (pos + 1) pre G pos' ->
-    pitems18 c pos (tok :: pre) (fun st => do st' <- sep_fn c IIndex a tok st; G st') pos'.
+(** * [pitems18]: options ([item18]) and single-valued positionals; the indices are the parser's "an argument was
+    seen" flag at the start and the positional counter before and after.  A positional value must not be read as a
+    subcommand WHERE IT STANDS ([possible_subcommand c tok vaf = None]): on a level with
+    [args_conflicts_with_subcommands] a subcommand NAME behind an argument of the level is a value *)
+Inductive pitems18 (c : cmd) : bool -> N -> list bytes -> (ps -> res ps) -> N -> Prop :=
+| p18_nil vaf pos : pitems18 c vaf pos [] (fun st => ROk st) pos
+| p18_opt vaf pos toks F pre G pos' : item18 c toks F -> pitems18 c true pos pre G pos' ->
+    pitems18 c vaf pos (toks ++ pre) (fun st => do st' <- F st; G st') pos'
+| p18_pos vaf pos tok a pre G pos' :
+    possible_subcommand c tok vaf = None -> plain_tok tok -> takes_at c pos a tok -> a_is_multiple a = false ->
+    pitems18 c true (pos + 1) pre G pos' ->
+    pitems18 c vaf pos (tok :: pre) (fun st => do st' <- sep_fn c IIndex a tok st; G st') pos'.
 
-Lemma pitems_pitems18 c pos pre F pos' : pitems c pos pre F pos' -> pitems18 c pos pre F pos'.
+Lemma pitems_pitems18 c pos pre F pos' : pitems c pos pre F pos' -> forall vaf, pitems18 c vaf pos pre F pos'.
 Proof.
-  induction 1 as [pos|pos toks F pre G pos' Hi Hp IH|pos tok a pre G pos' Hns Hpl Ht Hm Hp IH].
+  induction 1 as [pos|pos toks F pre G pos' Hi Hp IH|pos tok a pre G pos' Hns Hpl Ht Hm Hp IH]; intros vaf.
   - apply p18_nil.
-  - apply p18_opt; [apply i18_base; exact Hi|exact IH].
-  - apply p18_pos; assumption.
+  - apply p18_opt; [apply i18_base; exact Hi|apply IH].
+  - apply p18_pos; [apply Hns|assumption|assumption|assumption|apply IH].
 Qed.
 
-Lemma pitems18_fs c pos pre F pos' : pitems18 c pos pre F pos' -> forall st st', F st = ROk st' ->
+Lemma pitems18_fs c vaf pos pre F pos' : pitems18 c vaf pos pre F pos' -> forall st st', F st = ROk st' ->
   fs_skip st' = fs_skip st /\ fs_at st' = fs_at st.
 Proof.
-  induction 1 as [pos|pos toks F pre G pos' Hi Hp IH|pos tok a pre G pos' Hns Hpl Ht Hm Hp IH]; intros st st' H.
+  induction 1 as [vaf pos|vaf pos toks F pre G pos' Hi Hp IH|vaf pos tok a pre G pos' Hns Hpl Ht Hm Hp IH]; intros st st' H.
   - inversion H. split; reflexivity.
   - destruct (F st) as [st1|e s1|x] eqn:E; cbn [rbind] in H; try discriminate.
     destruct (IH _ _ H) as [H1 H2]. destruct (item18_fs c toks F Hi _ _ E) as [H3 H4]. rewrite H1, H2. split; assumption.
@@ -357,11 +361,11 @@ Proof.
     destruct (IH _ _ H) as [H1 H2]. destruct (sep_fn_fs _ _ _ _ _ _ E) as [H3 H4]. rewrite H1, H2. split; assumption.
 Qed.
 
-Theorem loop_pitems18 c pos pre F pos' : pitems18 c pos pre F pos' -> forall rest vaf st, fs_skip st = 0 ->
+Theorem loop_pitems18 c vaf pos pre F pos' : pitems18 c vaf pos pre F pos' -> forall rest st, fs_skip st = 0 ->
   parse_loop c (pre ++ rest) (lsV pos vaf) st =
   (do st' <- F st; parse_loop c rest (lsV pos' (vaf || negb (is_nil pre))) st').
 Proof.
-  induction 1 as [pos|pos toks F pre G pos' Hi Hp IH|pos tok a pre G pos' Hns Hpl Ht Hm Hp IH]; intros rest vaf st Hfs.
+  induction 1 as [vaf pos|vaf pos toks F pre G pos' Hi Hp IH|vaf pos tok a pre G pos' Hns Hpl Ht Hm Hp IH]; intros rest st Hfs.
   - cbn [app rbind is_nil negb]. rewrite orb_false_r. reflexivity.
   - rewrite <- app_assoc, (item18_step c toks F Hi (pre ++ rest) pos vaf st Hfs).
     destruct (F st) as [st1|e s1|x] eqn:E; cbn [rbind]; try reflexivity.
@@ -370,7 +374,7 @@ Proof.
     cbn [app is_nil negb orb]. rewrite orb_true_r. reflexivity.
   - cbn [app]. unfold lsV at 1.
     rewrite (loop_pos_step c PSValuesDone tok a (pre ++ rest) pos vaf st I); [| |exact Hpl|exact Ht].
-    2:{ rewrite orb_true_r. apply Hns. }
+    2:{ rewrite orb_true_r. exact Hns. }
     rewrite (pos_push_single c a tok st Hm). unfold after_pos. rewrite Hm.
     destruct (sep_fn c IIndex a tok st) as [st1|e s1|x] eqn:E; cbn [rbind]; try reflexivity.
     destruct (sep_fn_fs _ _ _ _ _ _ E) as [H3 _].
@@ -383,9 +387,9 @@ Proof.
   intros H. inversion H; subst. eapply resolve_pending_err; eauto.
 Qed.
 
-Lemma pitems18_err c pos pre F pos' : pitems18 c pos pre F pos' -> forall st e s, F st = RErr e s -> reaction_error c e.
+Lemma pitems18_err c vaf pos pre F pos' : pitems18 c vaf pos pre F pos' -> forall st e s, F st = RErr e s -> reaction_error c e.
 Proof.
-  induction 1 as [pos|pos toks F pre G pos' Hi Hp IH|pos tok a pre G pos' Hns Hpl Ht Hm Hp IH]; intros st e s H.
+  induction 1 as [vaf pos|vaf pos toks F pre G pos' Hi Hp IH|vaf pos tok a pre G pos' Hns Hpl Ht Hm Hp IH]; intros st e s H.
   - discriminate.
   - destruct (F st) as [st1|e1 s1|x] eqn:E; cbn [rbind] in H.
     + eapply IH; eauto.
@@ -440,9 +444,9 @@ Proof. vm_compute. repeat split; reflexivity. Qed.
 
 (** STATE AGREEMENT on one item of the wider class, both machines *)
 Theorem state_agreement_item18 pc cur toks F : elevel pc cur -> item18 pc toks F ->
-  (forall pi, shadow_run toks cur pi false ValueDone = SNext cur pi false ValueDone) /\
+  (forall pi vaf, shadow_run toks cur pi false ValueDone vaf = SNext cur pi false ValueDone true) /\
   (forall rest pos vaf st, fs_skip st = 0 ->
      parse_loop pc (toks ++ rest) (lsV pos vaf) st = (do st' <- F st; parse_loop pc rest (lsV pos true) st')).
 Proof.
-  intros L Hi. split; [intros pi; exact (eng_item18 pc cur L toks F pi Hi)|exact (item18_step pc toks F Hi)].
+  intros L Hi. split; [intros pi vaf; exact (eng_item18 pc cur L toks F pi vaf Hi)|exact (item18_step pc toks F Hi)].
 Qed.
